@@ -6,7 +6,7 @@ Property theorems only.  They are about `PsV.Aux.writeKey / removeKey / getAux /
 validate / reserved / step`, the string-card routines `ffs2c / mkCard / cardOf / ffgknm / ffpsvc / stripValue /
 entryOfCard` and the round trip `fitsTrip` — the definitions `psvdriver C16` executes against the real code — instantiated with the constants and the reserved-prefix table of
 `PsV.Gen.C16`, which `tools/gen_c16.py` regenerates from the working tree before every build.
-The model is that of the repaired code (fixes/C16-1..4.diff).
+The model is that of the repaired code (fixes/C16-1..5.diff).
 -/
 namespace PsV
 open PsV.Aux PsV.Gen
@@ -141,41 +141,14 @@ theorem C16_accepted_fits_card (key val : Str) (h : validate key val = none) :
     reserved key = false ∧
     (key.length ≤ 8 → val.length + countQuotes val ≤ 68 ∧ key.any badShortChar = false) ∧
     (9 ≤ key.length → key.length + val.length + countQuotes val ≤ 67 ∧ '=' ∉ key) := by
-  unfold validate at h
-  simp only [C16.shortKeylenMax, C16.longKeyGuard, C16.shortMaxData, longMaxData, C16.cardLen, C16.hierOverhead, sizeMod] at h
-  by_cases hr : reserved key = true
-  · simp [hr] at h
-  · have hr' : reserved key = false := by simpa using hr
-    simp only [hr', Bool.false_eq_true, if_false] at h
-    refine ⟨hr', ?_, ?_⟩
-    · intro hlen
-      have : key.length + 1 ≤ 9 := by omega
-      simp only [this, if_true] at h
-      by_cases hb : key.any badShortChar = true
-      · simp [hb] at h
-      · simp only [hb, Bool.false_eq_true, if_false] at h
-        refine ⟨?_, by simpa using hb⟩
-        by_cases hv : val.length + countQuotes val > 68
-        · simp [hv] at h
-        · omega
-    · intro hlen
-      have : ¬ key.length + 1 ≤ 9 := by omega
-      simp only [this, if_false] at h
-      cases hs : longKeyScan key with
-      | some e => simp [hs] at h
-      | none =>
-        simp only [hs] at h
-        refine ⟨?_, longKeyScan_none key hs⟩
-        by_cases hg : 80 ≤ 13 + key.length
-        · have hg' : 13 + (key.length + 1) - 1 ≥ 80 := by omega
-          rw [if_pos hg'] at h; simp at h
-        · have hg' : ¬ 13 + (key.length + 1) - 1 ≥ 80 := by omega
-          simp only [hg', if_false] at h
-          have e : (80 + 2 ^ 64 - (13 + (key.length + 1) - 1) % 2 ^ 64) % 2 ^ 64 = 67 - key.length := by omega
-          rw [e] at h
-          by_cases hv : val.length + countQuotes val > 67 - key.length
-          · simp [hv] at h
-          · omega
+  obtain ⟨hres, _, _, hshort, hlong, _⟩ := (validate_none_iff key val).mp h
+  refine ⟨hres, ?_, ?_⟩
+  · intro hl
+    obtain ⟨ha, hd⟩ := hshort hl
+    exact ⟨hd, (any_badShortChar_false_iff key).mpr ha⟩
+  · intro hl
+    obtain ⟨⟨_, heq, _⟩, _, hfit⟩ := hlong hl
+    exact ⟨by omega, heq⟩
 
 example : validate "LONG KEY'S NAME".toList "it's".toList = none ∧ validate "A".toList (List.replicate 34 '\'') = none := by decide
 
@@ -247,20 +220,31 @@ example : hierPrefix.isPrefixOf ("GEOTYPE ".toList ++ ['=', ' '] ++ ffs2c "it's"
     fitsTrip [("GEOTYPE".toList, "it's".toList), ("MY LONG KEY".toList, "'q'".toList)] =
       some [("GEOTYPE".toList, "it's   ".toList), ("MY LONG KEY".toList, "'q'   ".toList)] := by decide
 
-/-- **write_key accepts exactly** (repaired code, constants generated from the source): the key is not reserved; a
-    key of at most 8 characters is made of upper-case letters and digits and the value, every quote counted twice,
-    has at most 68 characters; a longer key has no `=` and no lower-case letter, at most 66 characters, and key and
-    value (quotes counted twice) together at most 67.  Everything else is rejected (`C16_reject_unchanged`). -/
+/-- **write_key accepts exactly** (repaired code incl. fixes/C16-5; constants and tables generated from the source):
+    the key is not reserved (prefix table of `reservedFitsKeyword`), not empty, has no blank at either end, does not
+    start with `HIERARCH ` and is not END / HISTORY / CONTINUE; a key of at most 8 characters is made of upper-case
+    letters and digits and the value, every quote counted twice, has at most 68 characters; a longer key is
+    printable ASCII without `=` and lower-case letters, has at most 66 characters, and key and value (quotes counted
+    twice) together at most 67; the value is printable ASCII.  Everything else is rejected (`C16_reject_unchanged`).
+    In particular an accepted key is a `PlainKey` and an accepted value a `PlainVal`. -/
 theorem C16_validate_iff (key val : Str) :
-    validate key val = none ↔
-      reserved key = false ∧
+    (validate key val = none ↔
+      (¬ ∃ p ∈ C16.reservedPrefixes, p.1 <+: key) ∧
+      (key ≠ [] ∧ key.head? ≠ some ' ' ∧ key.getLast? ≠ some ' ') ∧
+      (hierPrefix.isPrefixOf key = false ∧ key ≠ endKey ∧ key ≠ historyKey ∧ key ≠ continueKey) ∧
       (key.length ≤ 8 → Alnum key ∧ val.length + countQuotes val ≤ 68) ∧
-      (9 ≤ key.length → ('=' ∉ key ∧ ∀ c ∈ key, c.isLower = false) ∧ key.length ≤ 66 ∧
-        key.length + (val.length + countQuotes val) ≤ 67) :=
-  validate_none_iff key val
+      (9 ≤ key.length → ((∀ c ∈ key, printable c = true) ∧ '=' ∉ key ∧ ∀ c ∈ key, c.isLower = false) ∧
+        key.length ≤ 66 ∧ key.length + (val.length + countQuotes val) ≤ 67) ∧
+      PlainVal val) ∧
+    (validate key val = none → PlainKey key ∧ PlainVal val) := by
+  refine ⟨?_, validate_plain key val⟩
+  rw [validate_none_iff, edgeBlank_false_iff, writeReserved_false_iff, ← reserved_iff_prefix]
+  simp only [Bool.not_eq_true]
 
 example : validate "K1".toList (List.replicate 34 '\'') = none ∧ validate "K1".toList (List.replicate 35 '\'') = some .valueTooLong ∧
-    validate "A LONG KEY".toList (List.replicate 57 'x') = none ∧ validate "A LONG KEY".toList (List.replicate 58 'x') = some .valueTooLong := by decide
+    validate "A LONG KEY".toList (List.replicate 57 'x') = none ∧ validate "A LONG KEY".toList (List.replicate 58 'x') = some .valueTooLong ∧
+    validate "A LONG KEY ".toList ['x'] = some .edgeBlank ∧ validate "A LONG\tKEY".toList ['x'] = some .keyNonPrintable ∧
+    validate "K1".toList "\t12".toList = some .valueNonPrintable ∧ validate "ENDPOINT".toList ['x'] = none := by decide
 
 /-- **reservedFitsKeyword is the prefix filter of its table**, for every key: `strncmp(lit, key, n) == 0` for some
     row of the generated table iff one of the literals is a prefix of the key (the same function filters the cards
@@ -271,30 +255,27 @@ theorem C16_reserved_iff_prefix (key : Str) :
 
 example : reserved "NAXIS12".toList = true ∧ reserved "NAXI".toList = false ∧ reserved "XTYPE".toList = false := by decide
 
-/-- **accepted_survive_fits, one entry (key and value).**  For an entry `write_key` accepted whose key cfitsio
-    stores verbatim (`PlainKey`: not empty, no leading/trailing blank, no explicit `HIERARCH ` prefix, not
-    END/HISTORY/CONTINUE, printable — the complement is the list of known findings) and whose value is printable:
+/-- **accepted_survive_fits, one entry (key and value).**  For every entry `write_key` accepts (no further
+    hypothesis: since fixes/C16-5 acceptance implies that the key is one cfitsio stores verbatim and the value is
+    printable, `C16_validate_iff`):
     `fits_write_key(TSTRING)` (= `ffs2c`, `ffmkky` with the standard 8-column keyword field or the
     `HIERARCH name = ` layout incl. the `= ` variant and the cut-off padding / forced closing quote of a full card,
     `ffprec`) succeeds with a card of exactly 80 columns (only padding blanks are ever cut off, never the value), the card does not terminate the header, and `fits_read_keyn` (= `ffgrec`, `ffgknm`,
     `ffpsvc`) followed by the reserved filter and the repaired quote stripping of `read_fits_core` returns the same
     key and the value followed by `padOf k v <= 8` blanks. -/
-theorem C16_accepted_entry_survives_fits (k v : Str) (hacc : validate k v = none) (hk : PlainKey k) (hv : PlainVal v) :
+theorem C16_accepted_entry_survives_fits (k v : Str) (hacc : validate k v = none) :
     ∃ card, cardOf (k, v) = some card ∧ card.length = 80 ∧ isEndCard card = false ∧
       entryOfCard card = some (k, v ++ blanks (padOf k v)) ∧
       padOf k v ≤ 8 ∧ rstrip (v ++ blanks (padOf k v)) = rstrip v := by
-  obtain ⟨card, h1, h0, h2, h3⟩ := entry_survives k v hacc hk hv
+  obtain ⟨card, h1, h0, h2, h3⟩ := entry_survives k v hacc
   exact ⟨card, h1, h0, h2, h3, padOf_le k v, rstrip_pad v _⟩
 
 /-- hypotheses satisfiable: a HIERARCH key with a quote and a key of 66 characters (full card, forced closing quote) -/
-example : PlainKey "LONG KEY'S NAME".toList ∧ PlainVal "it's".toList ∧ validate "LONG KEY'S NAME".toList "it's".toList = none ∧
-    PlainKey (List.replicate 66 'K') ∧ validate (List.replicate 66 'K') ['x'] = none ∧
-    (cardOf (List.replicate 66 'K', ['x'])).bind entryOfCard = some (List.replicate 66 'K', ['x']) :=
-  ⟨⟨by decide, by decide, by decide, by decide, by decide, by decide, by decide, by decide⟩, by decide, by decide,
-   ⟨by decide, by decide, by decide, by decide, by decide, by decide, by decide, by decide⟩, by decide, by decide⟩
+example : validate "LONG KEY'S NAME".toList "it's".toList = none ∧ validate (List.replicate 66 'K') ['x'] = none ∧
+    (cardOf (List.replicate 66 'K', ['x'])).bind entryOfCard = some (List.replicate 66 'K', ['x']) := by decide
 
-/-- **accepted_survive_fits (whole stores).**  For every store all of whose entries were accepted by `write_key`,
-    have plain keys and printable values: `write_fits_mem` followed by `read_fits_mem` (`fitsTrip`: one card per
+/-- **accepted_survive_fits (whole stores).**  For every store all of whose entries were accepted by `write_key`
+    (`Accepted`; nothing else is assumed): `write_fits_mem` followed by `read_fits_mem` (`fitsTrip`: one card per
     entry in array order, cut at an END card, reserved names filtered, nothing de-duplicated) succeeds and returns
     the same keys in the same order, every value intact apart from trailing blanks (at most 8, `padOf`); lookups
     agree up to that padding; uniqueness of keys is kept; the result is again accepted and is a fixed point of
@@ -315,29 +296,28 @@ theorem C16_accepted_survive_fits (st : Store) (h : Accepted st) :
 example : fitsTrip [("GEOTYPE".toList, "it's".toList), ("MY LONG KEY".toList, "'q'".toList), ("N".toList, showInt (-7))] =
     some [("GEOTYPE".toList, "it's   ".toList), ("MY LONG KEY".toList, "'q'   ".toList), ("N".toList, "-7      ".toList)] := by decide
 
-/-- **histories.**  From a store with unique, accepted, plain entries (e.g. the empty one), any sequence of
-    operations of the differential run whose written keys are plain and values printable — writes (string, int,
-    text), overwrites, removals, lookups, typed reads and FITS round trips, in any order — keeps the store a
-    duplicate-free accepted store, and a FITS round trip at any point succeeds and returns the store with its
-    values padded (`C16_accepted_survive_fits`). -/
-theorem C16_history_survives (st : Store) (ops : List Op) (hn : NoDupKeys st) (ha : Accepted st)
-    (hops : ∀ op ∈ ops, PlainOp op) :
+/-- **histories.**  From a store with unique, accepted entries (e.g. the empty one), ANY sequence of operations of
+    the differential run — writes (string, int, text) of arbitrary keys and values, accepted or rejected, overwrites,
+    removals, lookups, typed reads and FITS round trips, in any order — keeps the store a duplicate-free accepted
+    store, and a FITS round trip at any point succeeds and returns the store with its values padded
+    (`C16_accepted_survive_fits`). -/
+theorem C16_history_survives (st : Store) (ops : List Op) (hn : NoDupKeys st) (ha : Accepted st) :
     NoDupKeys (runOps st ops) ∧ Accepted (runOps st ops) ∧
     step (runOps st ops) .fits = (.fitsOk, padStore (runOps st ops)) := by
-  have hw : ∀ (s : Store) (k v : Str), NoDupKeys s → Accepted s → PlainKey k → PlainVal v →
+  have hw : ∀ (s : Store) (k v : Str), NoDupKeys s → Accepted s →
       NoDupKeys (writeKey s k v).2 ∧ Accepted (writeKey s k v).2 := by
-    intro s k v hn ha hk hv
-    refine ⟨?_, accepted_writeKey s k v ha hk hv⟩
+    intro s k v hn ha
+    refine ⟨?_, accepted_writeKey s k v ha⟩
     cases hacc : (writeKey s k v).1.accepted with
     | true => exact ((C16_aux_refines_ordered_map s hn).2.1 k v hacc).2.1
     | false => rw [C16_reject_unchanged s k v hacc]; exact hn
-  have hstep : ∀ (s : Store) (op : Op), NoDupKeys s → Accepted s → PlainOp op →
+  have hstep : ∀ (s : Store) (op : Op), NoDupKeys s → Accepted s →
       NoDupKeys (step s op).2 ∧ Accepted (step s op).2 := by
-    intro s op hn ha hp
+    intro s op hn ha
     cases op with
-    | writeStr k v => exact hw s k v hn ha hp.1 hp.2
-    | writeText k v => exact hw s k v hn ha hp.1 hp.2
-    | writeInt k n => exact hw s k (showInt n) hn ha hp (plainVal_showInt n)
+    | writeStr k v => exact hw s k v hn ha
+    | writeText k v => exact hw s k v hn ha
+    | writeInt k n => exact hw s k (showInt n) hn ha
     | remove k =>
       refine ⟨?_, accepted_removeKey s k ha⟩
       have := (C16_aux_refines_ordered_map s hn).2.2 k
@@ -359,29 +339,22 @@ theorem C16_history_survives (st : Store) (ops : List Op) (hn : NoDupKeys st) (h
     show (match fitsTrip st with | none => (Out.fitsWriteFailed, st) | some s' => (Out.fitsOk, s')) = _
     rw [(C16_accepted_survive_fits st ha).1]; rfl
   | cons op r ih =>
-    obtain ⟨h1, h2⟩ := hstep st op hn ha (hops op (by simp))
-    exact ih (step st op).2 h1 h2 (fun o ho => hops o (by simp [ho]))
+    obtain ⟨h1, h2⟩ := hstep st op hn ha
+    exact ih (step st op).2 h1 h2
 
-example : (∀ op ∈ [Op.writeStr "A".toList "it's".toList, .writeInt "LONG KEY 1".toList 12, .fits, .remove "A".toList, .fits], PlainOp op) ∧
-    runOps [] [Op.writeStr "A".toList "it's".toList, .writeInt "LONG KEY 1".toList 12, .fits, .remove "A".toList, .fits]
-      = [("LONG KEY 1".toList, "12      ".toList)] := by
-  refine ⟨?_, by decide⟩
-  intro op hop
-  simp only [List.mem_cons, List.not_mem_nil, or_false] at hop
-  rcases hop with rfl | rfl | rfl | rfl | rfl
-  · exact ⟨⟨by decide, by decide, by decide, by decide, by decide, by decide, by decide, by decide⟩, by decide⟩
-  · exact ⟨by decide, by decide, by decide, by decide, by decide, by decide, by decide, by decide⟩
-  · trivial
-  · trivial
-  · trivial
+/-- a history with rejected writes (END, a blank-edged key, a TAB in the value), overwrites, a removal and round trips -/
+example : runOps [] [Op.writeStr "A".toList "it's".toList, .writeStr endKey ['v'], .writeInt "LONG KEY 1".toList 12, .writeStr " B".toList ['v'],
+      .fits, .writeStr "A".toList "\t1".toList, .remove "A".toList, .fits]
+      = [("LONG KEY 1".toList, "12      ".toList)] ∧ NoDupKeys ([] : Store) ∧ Accepted [] :=
+  ⟨by decide, by unfold NoDupKeys keys; decide, fun e he => absurd he (by simp)⟩
 
-/-- **int_survives_fits.**  An `int` written under a plain key into an accepted store is still read back exactly
+/-- **int_survives_fits.**  An `int` written (and accepted) into an accepted store is still read back exactly
     after a FITS round trip of the whole store (the padding blanks follow the digits and stop `operator>>`). -/
 theorem C16_int_survives_fits (st : Store) (k : Str) (n : Int) (hlo : intMin ≤ n) (hhi : n ≤ intMax)
-    (hn : NoDupKeys st) (ha : Accepted st) (hk : PlainKey k)
+    (hn : NoDupKeys st) (ha : Accepted st)
     (hacc : (writeKey st k (showInt n)).1.accepted = true) :
     ∃ st', fitsTrip (writeKey st k (showInt n)).2 = some st' ∧ readKeyInt st' k = .parsed true (some n) := by
-  have ha' := accepted_writeKey st k (showInt n) ha hk (plainVal_showInt n)
+  have ha' := accepted_writeKey st k (showInt n) ha
   refine ⟨_, (C16_accepted_survive_fits _ ha').1, ?_⟩
   unfold readKeyInt
   rw [getAux_padStore, (C16_string_roundtrip st k (showInt n) hn hacc).2]
@@ -405,12 +378,12 @@ example : ∀ c ∈ ["SIMPLE  =                    T / file does conform to FITS
 
 /-- **histories refine the ordered map.**  Folding the operations of `aux.h` over any history (any keys and values,
     accepted or not) equals folding the specification `Spec.apply` (put / del / nothing) and keeps the keys unique,
-    as long as no FITS round trip is involved; with round trips the same holds for plain keys and printable
-    values from an accepted store (`padStore` being the specification of the round trip). -/
+    from any duplicate-free store as long as no FITS round trip is involved; with round trips the same holds from
+    every accepted store (`padStore` being the specification of the round trip). -/
 theorem C16_history_refines_map (st : Store) (ops : List Op) (hn : NoDupKeys st) :
     ((∀ op ∈ ops, isFits op = false) →
       runOps st ops = ops.foldl Spec.apply st ∧ NoDupKeys (runOps st ops)) ∧
-    (Accepted st → (∀ op ∈ ops, PlainOp op) → runOps st ops = ops.foldl Spec.apply st) := by
+    (Accepted st → runOps st ops = ops.foldl Spec.apply st) := by
   have hw : ∀ (s : Store) (k v : Str), NoDupKeys s →
       (writeKey s k v).2 = (if validate k v = none then Spec.put s k v else s) := by
     intro s k v hn
@@ -470,32 +443,32 @@ theorem C16_history_refines_map (st : Store) (ops : List Op) (hn : NoDupKeys st)
       have := ih (step st op).2 (e ▸ hnd st op hn hf) (fun o ho => hops o (by simp [ho]))
       simp only [runOps, List.foldl_cons] at this ⊢
       rw [← e]; exact this
-  · intro ha hops
+  · intro ha
     induction ops generalizing st with
     | nil => rfl
     | cons op r ih =>
       have e := hstep st op hn (Or.inr ha)
-      have hg := C16_history_survives st [op] hn ha (fun o ho => hops o (by simp only [List.mem_singleton] at ho; simp [ho]))
-      have := ih (step st op).2 hg.1 hg.2.1 (fun o ho => hops o (by simp [ho]))
+      have hg := C16_history_survives st [op] hn ha
+      have := ih (step st op).2 hg.1 hg.2.1
       simp only [runOps, List.foldl_cons] at this ⊢
       rw [← e]; exact this
 
 example : runOps [] [Op.writeStr "A".toList "1".toList, .writeStr "b".toList "x".toList, .writeInt "B".toList 2, .writeStr "A".toList "3".toList, .remove "B".toList]
     = [("A".toList, "3".toList)] := by decide
 
-/-- **the hypotheses on keys and values are needed** (the known findings of C16, as theorems about the model):
-    each of these entries is accepted by the repaired `write_key` and does not survive the round trip — empty key,
-    leading blank, trailing blank, explicit `HIERARCH ` prefix, END (this entry and all later ones are lost),
-    HISTORY, CONTINUE (value lost), a control character in the value (blanked). -/
-theorem C16_plain_hypotheses_needed :
-    (validate [] ['v'] = none ∧ fitsTrip [([], ['v'])] = some [([], [])]) ∧
-    (validate " LEADING SP".toList ['v'] = none ∧ (fitsTrip [(" LEADING SP".toList, ['v'])]).map keys = some ["LEADING SP".toList]) ∧
-    (validate "TRAILING SP ".toList ['v'] = none ∧ (fitsTrip [("TRAILING SP ".toList, ['v'])]).map keys = some ["TRAILING SP".toList]) ∧
-    (validate "HIERARCH FOO".toList ['v'] = none ∧ (fitsTrip [("HIERARCH FOO".toList, ['v'])]).map keys = some ["FOO".toList]) ∧
-    (validate endKey ['v'] = none ∧ fitsTrip [(['B'], ['0']), (endKey, ['v']), (['A'], ['1'])] = some [(['B'], "0       ".toList)]) ∧
-    (validate historyKey ['v'] = none ∧ fitsTrip [(historyKey, ['v'])] = some [(historyKey, [])]) ∧
-    (validate continueKey ['v'] = none ∧ fitsTrip [(continueKey, ['v'])] = some [(continueKey, [])]) ∧
-    (validate ['A'] "\t12".toList = none ∧ fitsTrip [(['A'], "\t12".toList)] = some [(['A'], " 12     ".toList)]) :=
+/-- **every new test of `write_key` is needed** (the seven former findings of C16, as theorems about the model):
+    each of these entries is now rejected by `write_key`, and had it been stored it would not have survived the
+    round trip — empty key, leading blank, trailing blank, explicit `HIERARCH ` prefix, END (this entry and all
+    later ones are lost), HISTORY, CONTINUE (value lost), a control character in the value (blanked). -/
+theorem C16_unstorable_rejected :
+    (validate [] ['v'] = some .edgeBlank ∧ fitsTrip [([], ['v'])] = some [([], [])]) ∧
+    (validate " LEADING SP".toList ['v'] = some .edgeBlank ∧ (fitsTrip [(" LEADING SP".toList, ['v'])]).map keys = some ["LEADING SP".toList]) ∧
+    (validate "TRAILING SP ".toList ['v'] = some .edgeBlank ∧ (fitsTrip [("TRAILING SP ".toList, ['v'])]).map keys = some ["TRAILING SP".toList]) ∧
+    (validate "HIERARCH FOO".toList ['v'] = some .reserved ∧ (fitsTrip [("HIERARCH FOO".toList, ['v'])]).map keys = some ["FOO".toList]) ∧
+    (validate endKey ['v'] = some .reserved ∧ fitsTrip [(['B'], ['0']), (endKey, ['v']), (['A'], ['1'])] = some [(['B'], "0       ".toList)]) ∧
+    (validate historyKey ['v'] = some .reserved ∧ fitsTrip [(historyKey, ['v'])] = some [(historyKey, [])]) ∧
+    (validate continueKey ['v'] = some .reserved ∧ fitsTrip [(continueKey, ['v'])] = some [(continueKey, [])]) ∧
+    (validate ['A'] "\t12".toList = some .valueNonPrintable ∧ fitsTrip [(['A'], "\t12".toList)] = some [(['A'], " 12     ".toList)]) :=
   ⟨⟨by decide, by decide⟩, ⟨by decide, by decide⟩, ⟨by decide, by decide⟩, ⟨by decide, by decide⟩, ⟨by decide, by decide⟩,
    ⟨by decide, by decide⟩, ⟨by decide, by decide⟩, ⟨by decide, by decide⟩⟩
 
